@@ -40,7 +40,6 @@ about run A alone (if A itself raises, the case is counted in a
 `A_raises:*` class and is not judged).
 """
 import copy
-import functools
 
 from hypothesis import strategies as st
 
@@ -632,7 +631,15 @@ def check_cmaes(case):
   out.cls(*spaces.classes_of(case['space']))
   if case.get('aligned'):
     out.cls('aligned_batches')
-  state = lambda d: lib.json_canon(d.dump().ns('cma')['state'])
+
+  def state(d):
+    # the whole dump (today only the key 'state'), values canonicalised
+    return {k: lib.json_canon(v) for k, v in lib.md_flat(d.dump()).items()}
+
+  def generation(st_):
+    import json
+    g = json.loads(st_[(('cma',), 'state')])['g']
+    return g['value'] if isinstance(g, dict) else g
 
   tr = lib.Transport(problem)
   t = case['t0']
@@ -704,10 +711,23 @@ def check_cmaes(case):
         out.cls('told_at_least_once')
       sa_, sb_ = state(a), state(b)
       if sa_ != sb_:
-        out.violate('cmaes/state_differs/' + ctx(),
+        # The states were equal after the previous update.  If a restart
+        # dropped buffered trials, the first visible effect is that the live
+        # instance completes a population (one more CMA generation) and the
+        # restarted one does not; anything else is a different defect.
+        try:
+          ga, gb = generation(sa_), generation(sb_)
+        except Exception:  # pylint: disable=broad-except
+          ga = gb = None
+        if lost_buffer and ga is not None and ga == gb + 1:
+          why = 'buffer_lost_at_restart'
+        else:
+          why = 'other/' + ctx()
+        out.violate('cmaes/state_differs/' + why,
                     'step %d after %d completed trials (pop_size %d, %d '
-                    'restarts): A=%.500s B=%.500s' % (
-                        i, fed, pop_eff, restarts, sa_, sb_))
+                    'restarts; generation counter A=%s B=%s): A=%.400s '
+                    'B=%.400s' % (i, fed, pop_eff, restarts, ga, gb,
+                                  sorted(sa_.items()), sorted(sb_.items())))
         return out
       if step['restart']:
         path = step['restart']
@@ -773,8 +793,15 @@ def service_strategy(draw):
   else:
     space = lib.tame(draw(spaces.flat_space(min_params=1, max_params=3,
                                             degenerate=False)))
-  steps = draw(lib.steps(infeasible=(algo == 'EAGLE_STRATEGY'), min_steps=3,
-                         max_steps=10, paths=('recreate',), p_restart=0.6))
+  if algo == 'EAGLE_STRATEGY':
+    # the firefly pool (capacity >= 11 with the default config the service
+    # uses) has to fill up before the saved pool influences the suggestions
+    steps = draw(lib.steps(infeasible=True, min_steps=6, max_steps=12,
+                           paths=('recreate',), p_restart=0.6, min_count=2,
+                           eager=True))
+  else:
+    steps = draw(lib.steps(infeasible=False, min_steps=3, max_steps=10,
+                           paths=('recreate',), p_restart=0.6))
   if is_grid:
     g = lib.grid_size(space)
     want = g + draw(st.integers(0, 4))
@@ -896,11 +923,15 @@ def check_service(case):
               client_id='w%d' % i))
         except Exception as e:  # pylint: disable=broad-except
           inner = e.__cause__ or e
-          out.violate('%s/suggest_raises/%s' % (name, _exc(inner)),
+          out.violate('%s/suggest_fails/%s/raises:%s' % (
+              name, 'first_call' if i == 0 else 'later_call', _exc(inner)),
                       'step %d: %r' % (i, e))
           return out
       if not op.done or op.HasField('error'):
-        out.violate('%s/suggest_operation_failed' % name,
+        # (the service reports a failing policy either by raising or, since
+        # the "SuggestTrials finishes the operation" fix, in the operation)
+        out.violate('%s/suggest_fails/%s/operation_error' % (
+            name, 'first_call' if i == 0 else 'later_call'),
                     'step %d: %s' % (i, str(op)[:300]))
         return out
       # SuggestTrials creates the new trials by popping the policy's
@@ -916,6 +947,27 @@ def check_service(case):
         return out
       if nt_pending and not is_grid:
         out.nontrivial = True
+      # The state the service saved for the next policy instance must be the
+      # state of the live instance (dump() is public; eagle stamps the wall
+      # clock into it).
+      with lib.clock(t):
+        try:
+          da = lib.dump_flat(a.dump(), ('dump_timestamp',))
+        except Exception as e:  # pylint: disable=broad-except
+          da = None
+          out.cls('dump_raises_on_A:' + _exc(e))
+      if da is not None:
+        saved = svz.StudyConfig.from_proto(s.GetStudy(vsp.GetStudyRequest(
+            name=sname)).study_spec).metadata.ns(lib.ROOT_NS).ns(
+                lib.DESIGNER_NS)
+        db = lib.dump_flat(saved, ('dump_timestamp',))
+        if da != db:
+          k = lib.first_diff(da, db)
+          out.violate('%s/saved_state_differs/%s' % (
+              name, '.'.join(k[0] + (k[1],))),
+                      'step %d key %r: live=%.300r saved=%.300r' % (
+                          i, k, da.get(k), db.get(k)))
+          return out
       seq.extend(lib.params_py(x) for x in tb)
       pending.extend(x.id for x in tb)
       still = []
